@@ -160,6 +160,7 @@ def install(reg):
     reg.sym_methods[EntropyObj] = entropy_method
     install_ec(reg)
     install_path(reg)
+    install_helpers(reg)
 
 
 TRUSTED = ['fastecdsa._ecdsa.sign / verify implement standard secp256k1 ECDSA (uninterpreted: ecdsa_sign_r/s, ecdsa_verify)',
@@ -333,3 +334,63 @@ def install_path(reg):
     reg.sym_getitem[SPathItem] = pathitem_getitem
     reg.sym_int[SPathItem] = lambda ip, v: (wrap_int(v.n) if not v.marker else pyraise(ValueError, 'invalid literal for int()'))
     reg.sym_truth[SPathItem] = lambda ip, v: True
+
+
+# ---------------------------------------------------------------------------------------------------
+# Assumed models of helpers that stand between the verified function and the property (each listed as trusted):
+
+def m_scrypt_hash(ip, args, kwargs):
+    """encoding.scrypt_hash(password, salt, key_len, N, r, p): ASSUMED to be scrypt - an uninterpreted function of all arguments"""
+    from pyvc.values import is_concrete
+    import bitcoinlib.encoding as enc
+    if is_concrete(args) and is_concrete(kwargs):
+        return enc.scrypt_hash(*args, **kwargs)
+    names = ['password', 'salt', 'key_len', 'N', 'r', 'p']
+    vals = dict(zip(names, args))
+    vals.update(kwargs)
+    key_len = vals.get('key_len', 64)
+    return models.uf_bytes(ip.ctx, 'scrypt', [vals['password'], vals['salt'], key_len, vals.get('N', 16384), vals.get('r', 8), vals.get('p', 1)], key_len)
+
+
+def m_normalize(ip, args, kwargs):
+    import unicodedata
+    from pyvc.values import is_concrete
+    if is_concrete(args):
+        return unicodedata.normalize(*args)
+    form, s = args
+    app = uf(ip.ctx, 'unicode_' + form, [s], IntSeq)
+    ln = uf(ip.ctx, 'unicode_%s.len' % form, [s], z3.IntSort())
+    ip.ctx.fact(ln >= 0)
+    return SStr(seq=SeqPart(app, ln))
+
+
+def m_to_bytes(ip, args, kwargs):
+    """encoding.to_bytes on a *bytes* value: ASSUMED identity.  (The real function returns bytes.fromhex(text) when the
+    bytes happen to be ASCII hex digits of even length; key material, hashes and salts are assumed not to look like that.)"""
+    import bitcoinlib.encoding as enc
+    from pyvc.values import is_concrete
+    if is_concrete(args) and is_concrete(kwargs):
+        return enc.to_bytes(*args, **kwargs)
+    if isinstance(args[0], SBytes):
+        return args[0]
+    raise Unsupported('to_bytes(%r)' % (args[0],))
+
+
+def m_base58encode(ip, args, kwargs):
+    """encoding.base58encode(b): uninterpreted string function of the bytes (its own contract belongs to C11)"""
+    import bitcoinlib.encoding as enc
+    from pyvc.values import is_concrete
+    if is_concrete(args):
+        return enc.base58encode(*args)
+    app = uf(ip.ctx, 'base58encode', [args[0]], IntSeq)
+    ln = uf(ip.ctx, 'base58encode.len', [args[0]], z3.IntSort())
+    ip.ctx.fact(ln >= 0)
+    return SStr(seq=SeqPart(app, ln))
+
+
+def install_helpers(reg):
+    import unicodedata
+    import bitcoinlib.encoding as enc
+    reg.models[enc.scrypt_hash] = m_scrypt_hash
+    reg.models[unicodedata.normalize] = m_normalize
+    reg.helper_models = {'to_bytes': (enc.to_bytes, m_to_bytes), 'base58encode': (enc.base58encode, m_base58encode)}
